@@ -16,12 +16,13 @@ COMMON_ASSUMPTIONS = [
 
 PROPS = {
     'C01': {
-        'modes': [(0, 4, 'random'), (0, 4, 'pattern'), (1, 4, 'random'), (1, 4, 'pattern')],
+        'modes': [(0, 1, 'config'), (1, 1, 'config'), (0, 4, 'random'), (0, 4, 'pattern'), (1, 4, 'random'), (1, 4, 'pattern')],
         'budget': {'quick': 60, 'thorough': 420},
         'deciding': {'C01.reduce': (500, 5000), 'C01.rule': (75, 750), 'C01.nary': (75, 750), 'C01.operand-unchanged': (100, 1000)},
         'require_hist': {'quick': {'C01.rule.fired': RULES_ALL}, 'thorough': {'C01.rule.fired': RULES_ALL}},
         'rule': 'cases = seeded random well-typed expression trees (all operator classes, all combinators) and '
-                'documented patterns embedded in inert contexts; each case is reduced (also its transpose, its '
+                'documented patterns embedded in inert contexts, plus solver-based inverses built inside one solver configuration '
+                'and reduced under two others; each case is reduced (also its transpose, its '
                 'inverse when closed-form, and the result again) with every nested reduce() and every rule firing '
                 'judged separately against the reference dense form; a case key is the expression skeleton (nested '
                 'class names + container kinds); non-trivial = at least one rule fired or one reduce() returned a '
@@ -120,7 +121,7 @@ PROPS['C06'] = {
 PROPS['C02'] = {
     'modes': [(0, 6, 'tree'), (0, 2, 'reject'), (1, 6, 'tree'), (1, 2, 'reject')],
     'budget': {'quick': 60, 'thorough': 400},
-    'deciding': {'C02.boundary': (375, 3750), 'C02.dunder': (375, 3750), 'C02.reject': (100, 1000)},
+    'deciding': {'C02.boundary': (375, 3750), 'C02.dunder': (375, 3750), 'C02.reject': (100, 1000), 'C02.mv': (100, 1000)},
     'require_hist': {'quick': {'C02.reject.how': ['shape', 'container', 'dtype', 'extra-leaf', 'rank']},
                      'thorough': {'C02.reject.how': ['shape', 'container', 'dtype', 'extra-leaf', 'rank']}},
     'rule': 'cases = (tree) expression trees of 1-3 arithmetic steps (@ on either side, +, -, k*, *k, /k, unary +-, construction '
@@ -456,5 +457,90 @@ for _p, (_g, _f) in PYTEST.items():
     PROPS[_p]['pytest'] = {'groups': _g, 'files': [_T + f for f in _f]}
     base = PROPS[_p].get('modes_thorough') or PROPS[_p]['modes']
     PROPS[_p]['modes_thorough'] = list(base) + [(0, min(4, len(_f)), 'pytest')]
+
+# Functions of the library named by the properties' anchors: a run in which the workload never executed one of them
+# is inconclusive (function-entry tracer of fvm.worker; patterns are fnmatch patterns over "<file under furax/>:<qualname>").
+ANCHORS: dict[str, list[str]] = {
+    'C01': ['_base/rules.py:AlgebraicReductionRule.apply', '_base/core.py:CompositionOperator.reduce', '_base/rules.py:AbstractBinaryRule.check',
+            '_base/rules.py:InverseBinaryRule.*', '_base/rules.py:HomothetyRule.apply', '_base/rules.py:IdentityRule.apply',
+            '_base/blocks.py:AbstractBlockDiagonalRule.apply',
+            '_base/indices.py:IndexTransposeRule.apply', '_base/indices.py:TransposeIndexRule.apply',
+            '_base/axes.py:MoveAxisInverseRule.apply', '_base/axes.py:ReshapeInverseRule.apply', '_base/linear.py:PackUnpackRule.apply',
+            'operators/qu_rotations.py:QURotationRule.apply', 'operators/hwp.py:QURotationHWPRule.apply',
+            'operators/polarizers.py:LinearPolarizerHWPRule.apply', '_base/core.py:AdditionOperator.reduce',
+            '_base/core.py:InverseOperator.__init__', '_base/blocks.py:AbstractBlockOperator.reduce', '_base/blocks.py:BlockDiagonalOperator.reduce',
+            '_base/axes.py:AbstractRavelOrReshapeOperator.reduce', '_base/indices.py:IndexOperator.reduce'],
+    'C02': ['_base/core.py:AbstractLinearOperator.__matmul__', '_base/core.py:AbstractLinearOperator.__add__', '_base/core.py:AbstractLinearOperator.__sub__',
+            '_base/core.py:CompositionOperator.__matmul__', '_base/core.py:CompositionOperator.__rmatmul__', '_base/core.py:AdditionOperator.__add__',
+            '_base/core.py:AdditionOperator.__radd__', '_base/core.py:AdditionOperator.__neg__', '_base/core.py:AbstractLinearOperator.__rmul__',
+            '_base/core.py:AbstractLinearOperator.__mul__', '_base/core.py:AbstractLinearOperator.__truediv__', '_base/core.py:AbstractLinearOperator.__neg__',
+            '_base/core.py:HomothetyOperator.__matmul__', '_base/core.py:IdentityOperator.__matmul__', '_base/core.py:AbstractLazyInverseOperator.__matmul__',
+            '_base/blocks.py:BlockRowOperator.__init__', '_base/blocks.py:BlockColumnOperator.__init__'],
+    'C03': ['_base/core.py:TransposeOperator.mv', '_base/core.py:CompositionOperator.transpose', '_base/core.py:AdditionOperator.transpose',
+            '_base/blocks.py:Block*Operator.transpose', '_base/dense.py:DenseBlockDiagonalOperator.transpose',
+            '_base/dense.py:DenseBlockDiagonalOperator._get_transposed_subscripts', '_base/axes.py:MoveAxisOperator.transpose',
+            '_base/axes.py:ReshapeTransposeOperator.mv', 'operators/qu_rotations.py:QURotationTransposeOperator.mv',
+            'toast/obs_matrix.py:ToastObservationMatrixTransposeOperator.mv', '_base/core.py:symmetric', '_base/core.py:diagonal'],
+    'C04': ['_base/core.py:AbstractLinearOperator.as_matrix', '_base/core.py:AdditionOperator.as_matrix', '_base/core.py:IdentityOperator.as_matrix',
+            '_base/core.py:HomothetyOperator.as_matrix', '_base/core.py:AbstractLazyInverseOperator.as_matrix', '_base/diagonal.py:DiagonalOperator.as_matrix',
+            '_base/blocks.py:BlockRowOperator.as_matrix', '_base/blocks.py:BlockDiagonalOperator.as_matrix', '_base/blocks.py:BlockColumnOperator.as_matrix',
+            '_base/axes.py:AbstractRavelOrReshapeOperator.as_matrix', 'operators/toeplitz.py:SymmetricBandToeplitzOperator.as_matrix'],
+    'C05': ['_base/core.py:AbstractLinearOperator.out_structure', '_base/core.py:square', '_base/core.py:AdditionOperator.in_structure',
+            '_base/core.py:CompositionOperator.in_structure', '_base/core.py:CompositionOperator.out_structure', '_base/core.py:_AbstractLazyDualOperator.in_structure',
+            '_base/core.py:_AbstractLazyDualOperator.out_structure', '_base/blocks.py:AbstractBlockOperator.in_structure', '_base/blocks.py:AbstractBlockOperator.out_structure',
+            '_base/blocks.py:BlockRowOperator.out_structure', '_base/blocks.py:BlockColumnOperator.in_structure',
+            '_base/core.py:AbstractLinearOperator.in_size', '_base/core.py:AbstractLinearOperator.out_size',
+            '_base/core.py:AbstractLinearOperator.in_promoted_dtype', '_base/core.py:AbstractLinearOperator.out_promoted_dtype'],
+    'C06': ['_base/core.py:InverseOperator.__init__', '_base/core.py:InverseOperator.mv', '_base/core.py:AbstractLazyInverseOperator.inverse',
+            '_base/core.py:AbstractLazyInverseOperator.as_matrix', '_base/core.py:HomothetyOperator.inverse', '_base/core.py:orthogonal',
+            '_base/diagonal.py:DiagonalInverseOperator.diagonal', '_base/blocks.py:BlockDiagonalOperator.inverse', '_base/axes.py:MoveAxisOperator.transpose'],
+    'C07': ['_base/rules.py:AlgebraicReductionRule.apply', '_base/rules.py:IdentityRule.apply', '_base/rules.py:HomothetyRule.apply',
+            '_base/rules.py:AbstractBinaryRule.check', '_base/rules.py:InverseBinaryRule.*'],
+    'C08': ['_base/core.py:AbstractLinearOperator.__init_subclass__', '_base/core.py:_monkey_patch_operator', '_base/core.py:diagonal', '_base/core.py:symmetric',
+            '_base/core.py:orthogonal', '_base/core.py:square', '_base/core.py:lower_triangular', '_base/core.py:upper_triangular',
+            '_base/core.py:positive_semidefinite', '_base/core.py:negative_semidefinite'],
+    'C09': ['operators/toeplitz.py:SymmetricBandToeplitzOperator.mv', 'operators/toeplitz.py:SymmetricBandToeplitzOperator._get_func',
+            'operators/toeplitz.py:SymmetricBandToeplitzOperator._apply_dense', 'operators/toeplitz.py:SymmetricBandToeplitzOperator._apply_direct',
+            'operators/toeplitz.py:SymmetricBandToeplitzOperator._apply_fft', 'operators/toeplitz.py:SymmetricBandToeplitzOperator._apply_overlap_save',
+            'operators/toeplitz.py:SymmetricBandToeplitzOperator._get_kernel', 'operators/toeplitz.py:dense_symmetric_band_toeplitz',
+            'operators/toeplitz.py:SymmetricBandToeplitzOperator.__init__', 'operators/toeplitz.py:SymmetricBandToeplitzOperator._get_default_fft_size'],
+    'C10': ['_base/blocks.py:BlockRowOperator.mv', '_base/blocks.py:BlockDiagonalOperator.mv', '_base/blocks.py:BlockColumnOperator.mv',
+            '_base/blocks.py:AbstractBlockOperator.in_structure', '_base/blocks.py:AbstractBlockOperator.out_structure', '_base/blocks.py:Block*Operator.transpose',
+            '_base/blocks.py:BlockDiagonalOperator.inverse', '_base/blocks.py:Block*Operator.as_matrix', '_base/blocks.py:BlockRowOperator.__init__',
+            '_base/blocks.py:BlockColumnOperator.__init__', '_base/blocks.py:AbstractBlockDiagonalRule.apply'],
+    'C11': ['_base/diagonal.py:BroadcastDiagonalOperator.__init__', '_base/diagonal.py:BroadcastDiagonalOperator._normalize_axes',
+            '_base/diagonal.py:BroadcastDiagonalOperator._reshape_diagonal', '_base/diagonal.py:BroadcastDiagonalOperator._reshape_input_leaf',
+            '_base/diagonal.py:DiagonalOperator._check_leaf_shapes', '_base/diagonal.py:DiagonalOperator.as_matrix', '_base/diagonal.py:DiagonalInverseOperator.diagonal'],
+    'C12': ['_base/indices.py:IndexOperator.__init__', '_base/indices.py:IndexOperator.mv', '_base/indices.py:IndexOperator.indexed_axes',
+            '_base/indices.py:IndexTransposeRule.apply', '_base/indices.py:TransposeIndexRule.apply', '_base/linear.py:PackUnpackRule.apply',
+            '_base/linear.py:PackOperator.mv', 'landscapes.py:StokesPyTree.__getitem__'],
+    'C13': ['_base/axes.py:MoveAxisOperator.mv', '_base/axes.py:RavelOperator.mv', '_base/axes.py:ReshapeOperator.mv', '_base/axes.py:ReshapeTransposeOperator.mv',
+            '_base/axes.py:RavelOperator.__init__', '_base/axes.py:ReshapeOperator._check_shape', '_base/axes.py:ReshapeOperator._normalize_shape',
+            '_base/axes.py:MoveAxisOperator.transpose', '_base/axes.py:AbstractRavelOrReshapeOperator.transpose', '_base/axes.py:AbstractRavelOrReshapeOperator.reduce',
+            '_base/axes.py:MoveAxisInverseRule.apply', '_base/axes.py:ReshapeInverseRule.apply'],
+    'C14': ['_base/dense.py:DenseBlockDiagonalOperator.mv', '_base/dense.py:DenseBlockDiagonalOperator._parse_subscripts',
+            '_base/dense.py:DenseBlockDiagonalOperator._get_transposed_subscripts', '_base/dense.py:DenseBlockDiagonalOperator.transpose'],
+    'C15': ['operators/hwp.py:HWPOperator.mv', 'operators/qu_rotations.py:QURotationOperator.mv', 'operators/qu_rotations.py:QURotationTransposeOperator.mv',
+            'operators/polarizers.py:LinearPolarizerOperator.mv', 'operators/qu_rotations.py:QURotationRule.apply', 'operators/hwp.py:QURotationHWPRule.apply',
+            'operators/polarizers.py:LinearPolarizerHWPRule.apply', 'operators/hwp.py:HWPOperator.create', 'operators/polarizers.py:LinearPolarizerOperator.create',
+            'operators/qu_rotations.py:QURotationOperator.create'],
+    'C16': ['projections.py:get_rotation_matrix', 'projections.py:vec2dir', 'projections.py:create_projection_operator', 'landscapes.py:HealpixLandscape.world2pixel',
+            'landscapes.py:StokesLandscape.world2index', '_base/indices.py:IndexOperator.mv', 'instruments/sat.py:create_acquisition', 'detectors.py:DetectorArray.__init__',
+            'samplings.py:create_random_sampling'],
+    'C17': ['landscapes.py:StokesLandscape.pixel2index', 'landscapes.py:HealpixLandscape.world2pixel', 'landscapes.py:StokesLandscape.world2index',
+            'landscapes.py:StokesLandscape.get_coverage', 'landscapes.py:HealpixLandscape.__init__', 'landscapes.py:StokesLandscape.__init__'],
+    'C18': ['landscapes.py:*Landscape.tree_flatten', 'landscapes.py:*Landscape.tree_unflatten', 'landscapes.py:HealpixLandscape.tree_flatten',
+            'landscapes.py:FrequencyLandscape.tree_flatten',
+            'operators/toeplitz.py:SymmetricBandToeplitzOperator._apply_overlap_save'],
+    'C19': ['_base/config.py:Config.__init__', '_base/config.py:Config.__enter__', '_base/config.py:Config.__exit__', '_base/config.py:Config.instance',
+            '_base/core.py:InverseOperator.__init__', '_base/core.py:InverseOperator.mv'],
+    'C20': ['landscapes.py:StokesPyTree._operation', 'landscapes.py:StokesPyTree._roperation', 'landscapes.py:StokesPyTree.class_for',
+            'landscapes.py:StokesPyTree.structure_for', 'landscapes.py:StokesPyTree.from_stokes', 'landscapes.py:StokesPyTree.from_iquv',
+            'landscapes.py:StokesPyTree.zeros', 'landscapes.py:StokesPyTree.ones', 'landscapes.py:StokesPyTree.full', 'landscapes.py:StokesPyTree.normal',
+            'landscapes.py:StokesPyTree.uniform', 'tree.py:dot', 'tree.py:as_promoted_dtype', 'tree.py:as_structure', 'tree.py:full_like', 'tree.py:zeros_like',
+            'tree.py:ones_like', 'tree.py:normal_like', 'tree.py:uniform_like', 'tree.py:is_leaf'],
+}
+for _p, _a in ANCHORS.items():
+    PROPS[_p]['anchors'] = _a
 
 NOT_APPLICABLE: dict[str, str] = {}
